@@ -435,3 +435,177 @@ Proof.
   refine (conj H0 (conj Hl (conj H1 (conj H2 (conj H3 (conj H4 (conj A _))))))).
   vm_compute. repeat split; reflexivity.
 Qed.
+
+(* ================================================================================================== *)
+(* added from Properties/C03_add.v (2026-10-01)                                              *)
+(* ================================================================================================== *)
+(* C03 (addition)  SDicts with comments inside dicts that are LIST ITEMS: one write/read cycle is a fixed point. *)
+From Coq Require Import String.   (* string literals of the examples; imported first so the list names win *)
+From Coq Require Import NArith ZArith List Bool Lia.
+From DictIO Require Import Chars Str Value Scalar KeyPath SDict Layout Lexer TokParser TreeSpec NativeSpec LayoutSpec E2ESpec.
+From DictIO Require Import E2EHoles RereadList.
+Import ListNotations.
+Open Scope N_scope.
+
+(* C03_reread_partial leaves out "comment entries inside dicts that are elements of LISTS".  They are covered here: the
+   class  rereadable_l  (Proofs/RereadList.v; see C12_add.v) is  rereadable  with comment placeholder entries allowed at
+   every dict level -- also in dicts that are list items, at any nesting (dict in list in dict, dict in list in list,
+   scalar items mixed in) -- and with the comment list, the canonical form and the numbering entering lists.  Reading the
+   text written for such an SDict returns  number_l count (written_doc_l s) : the canonical document renumbered in text
+   order.  What remains excluded is what C03_reread_partial excludes otherwise (equal comment texts, source texts not
+   written by the library, includes in nested dicts, expressions). *)
+Theorem C03_reread_list_partial : forall s dir count, rereadable_l s = true -> (-1 <= count)%Z ->
+  (Z.of_nat (length (lc_list_l (written_doc_l s))) <= 1000000)%Z -> (Z.of_nat (length (bc_list_l (written_doc_l s))) <= 1000000)%Z ->
+  (Z.of_nat (length (lit_list_l (written_doc_l s))) <= 1000000)%Z ->
+  parse_string true dir count (to_string_sd s) =
+  Ok (mkParsed (number_l count (written_doc_l s)) (count_after_l count (written_doc_l s))).
+Proof. exact reread_l. Qed.
+Print Assumptions C03_reread_list_partial.
+
+(* The fixed point, as C03_reread_fixed_point_partial: s1 is again in the class; the second cycle returns the same
+   canonical form; writing s2 reproduces the text written for s1 byte for byte. *)
+Theorem C03_reread_list_fixed_point_partial : forall s dir count dir' count', rereadable_l s = true -> (-1 <= count)%Z -> (-1 <= count')%Z ->
+  (Z.of_nat (length (lc_list_l (written_doc_l s))) <= 1000000)%Z -> (Z.of_nat (length (bc_list_l (written_doc_l s))) <= 1000000)%Z ->
+  (Z.of_nat (length (lit_list_l (written_doc_l s))) <= 1000000)%Z ->
+  let c := written_doc_l s in let s1 := number_l count c in let c1 := cwv_l c in let s2 := number_l count' c1 in
+  parse_string true dir count (to_string_sd s) = Ok (mkParsed s1 (count_after_l count c)) /\
+  rereadable_l s1 = true /\
+  parse_string true dir' count' (to_string_sd s1) = Ok (mkParsed s2 (count_after_l count' c1)) /\
+  canon_l s1 = c1 /\ canon_l s2 = c1 /\
+  to_string_sd s2 = to_string_sd s1.
+Proof. exact reread_fixed_point_l. Qed.
+Print Assumptions C03_reread_list_fixed_point_partial.
+
+(* the class is closed: whatever is read back from a file the library wrote (a sorted document with a marked header) is
+   in the class again *)
+Theorem C03_reread_list_closed : forall c count, cdoc_ok_l c = true -> csort_l c = c -> has_header_l c = true -> (-1 <= count)%Z ->
+  (Z.of_nat (length (lc_list_l c)) <= 1000000)%Z -> (Z.of_nat (length (bc_list_l c)) <= 1000000)%Z ->
+  rereadable_l (number_l count c) = true /\ written_doc_l (number_l count c) = cwv_l c.
+Proof. exact reread_closed_l. Qed.
+Print Assumptions C03_reread_list_closed.
+
+(* the example: no marked header of its own (the default header is put in front), a string that is re-typed (0012), a
+   list with scalar items (one quoted), a dict item with a line comment and a two-line block comment, a LIST item holding
+   a dict with a comment (dict in list in list), and a dict item whose nested dict holds a list of a dict with comments
+   (dict in list in dict in dict in list) *)
+Definition ex03l_ph (w : str) (i : N) : key * tree := (KS (placeholder w i), Leaf (SStr (placeholder w i))).
+Definition ex03l_sd : sdict :=
+  mkSD [ ex03l_ph w_LINECOMMENT 7;
+         (KS (of_string "a"), Leaf (SStr (of_string "0012")));
+         ex03l_ph w_BLOCKCOMMENT 3;
+         (KS (of_string "cases"),
+          Lst [ Leaf (SInt 1); Leaf (SStr (of_string "x y"));
+                Dict [ex03l_ph w_LINECOMMENT 2; (KS (of_string "k"), Leaf (SInt 1)); ex03l_ph w_BLOCKCOMMENT 5];
+                Leaf (SInt 3);
+                Lst [ Leaf (SInt 4); Dict [ex03l_ph w_LINECOMMENT 4; (KS (of_string "k"), Leaf (SInt 2))]; Leaf (SInt 5) ];
+                Dict [ (KS (of_string "sub"), Dict [ (KS (of_string "m"), Lst [ Dict [ex03l_ph w_BLOCKCOMMENT 6; ex03l_ph w_LINECOMMENT 1] ]) ]) ];
+                Leaf (SInt 6) ]) ]
+       [(1, of_string "// one"); (2, of_string "// two"); (4, of_string "// four"); (7, of_string "// seven $x 'q' COMMENT")]
+       [(3, of_string "/* three */"); (5, of_string "/* five
+   more # */"); (6, of_string "/* six */")] [] [].
+
+Example C03_reread_list_partial_nonvacuous :
+  rereadable_l ex03l_sd = true /\
+  (Z.of_nat (length (lc_list_l (written_doc_l ex03l_sd))) <= 1000000)%Z /\ (Z.of_nat (length (bc_list_l (written_doc_l ex03l_sd))) <= 1000000)%Z /\
+  (Z.of_nat (length (lit_list_l (written_doc_l ex03l_sd))) <= 1000000)%Z /\
+  to_string_sd ex03l_sd = of_string
+"/*---------------------------------*- C++ -*----------------------------------*\
+filetype dictionary; coding utf-8; version 0.1; local --; purpose --;
+\*----------------------------------------------------------------------------*/
+/* three */
+// seven $x 'q' COMMENT
+a                             0012;
+cases
+(
+    1                 'x y'
+    {
+        // two
+        k                     1;
+        /* five
+   more # */
+    }
+    3                 (
+        4
+        {
+            // four
+            k                 2;
+        }
+        5
+    )
+
+    {
+        sub
+        {
+            m
+            (
+
+                {
+                    /* six */
+                    // one
+                }
+            );
+        }
+    }
+    6
+);
+" /\
+  parse_string true [] 41 (to_string_sd ex03l_sd) = Ok (mkParsed (number_l 41 (written_doc_l ex03l_sd)) 46) /\
+  (* the comments in text order, lists entered, renumbered 42.. (line) and 0.. (block, the default header first) *)
+  sd_lc (number_l 41 (written_doc_l ex03l_sd)) =
+    [(42, of_string "// seven $x 'q' COMMENT"); (43, of_string "// two"); (44, of_string "// four"); (45, of_string "// one")] /\
+  map fst (sd_bc (number_l 41 (written_doc_l ex03l_sd))) = [0; 1; 2; 3] /\
+  (* the data read back: the placeholder entries inside the list dicts carry the new numbers *)
+  sd_data (number_l 41 (written_doc_l ex03l_sd)) =
+    [ ex03l_ph w_BLOCKCOMMENT 0; ex03l_ph w_BLOCKCOMMENT 1; ex03l_ph w_LINECOMMENT 42;
+      (KS (of_string "a"), Leaf (SInt 12));
+      (KS (of_string "cases"),
+       Lst [ Leaf (SInt 1); Leaf (SStr (of_string "x y"));
+             Dict [ex03l_ph w_LINECOMMENT 43; (KS (of_string "k"), Leaf (SInt 1)); ex03l_ph w_BLOCKCOMMENT 2];
+             Leaf (SInt 3);
+             Lst [ Leaf (SInt 4); Dict [ex03l_ph w_LINECOMMENT 44; (KS (of_string "k"), Leaf (SInt 2))]; Leaf (SInt 5) ];
+             Dict [ (KS (of_string "sub"), Dict [ (KS (of_string "m"), Lst [ Dict [ex03l_ph w_BLOCKCOMMENT 3; ex03l_ph w_LINECOMMENT 45] ]) ]) ];
+             Leaf (SInt 6) ]) ].
+Proof.
+  assert (H0 : rereadable_l ex03l_sd = true) by (vm_compute; reflexivity).
+  assert (H1 : (Z.of_nat (length (lc_list_l (written_doc_l ex03l_sd))) <= 1000000)%Z) by (vm_compute; discriminate).
+  assert (H2 : (Z.of_nat (length (bc_list_l (written_doc_l ex03l_sd))) <= 1000000)%Z) by (vm_compute; discriminate).
+  assert (H3 : (Z.of_nat (length (lit_list_l (written_doc_l ex03l_sd))) <= 1000000)%Z) by (vm_compute; discriminate).
+  pose proof (C03_reread_list_partial ex03l_sd [] 41%Z H0 ltac:(lia) H1 H2 H3) as R.
+  assert (Hc : count_after_l 41 (written_doc_l ex03l_sd) = 46%Z) by (vm_compute; reflexivity). rewrite Hc in R.
+  refine (conj H0 (conj H1 (conj H2 (conj H3 (conj _ (conj R _)))))); vm_compute; repeat split; reflexivity.
+Qed.
+
+Example C03_reread_list_fixed_point_partial_nonvacuous :
+  let c := written_doc_l ex03l_sd in let s1 := number_l 41 c in let s2 := number_l 46 (cwv_l c) in
+  rereadable_l ex03l_sd = true /\
+  parse_string true [] 41 (to_string_sd ex03l_sd) = Ok (mkParsed s1 46) /\ rereadable_l s1 = true /\
+  parse_string true [] 46 (to_string_sd s1) = Ok (mkParsed s2 51) /\
+  canon_l s1 = cwv_l c /\ canon_l s2 = cwv_l c /\ to_string_sd s2 = to_string_sd s1 /\
+  (* the first cycle changes the text (0012 becomes 12) *)
+  to_string_sd s1 <> to_string_sd ex03l_sd.
+Proof.
+  intros c s1 s2.
+  assert (H0 : rereadable_l ex03l_sd = true) by (vm_compute; reflexivity).
+  assert (H1 : (Z.of_nat (length (lc_list_l (written_doc_l ex03l_sd))) <= 1000000)%Z) by (vm_compute; discriminate).
+  assert (H2 : (Z.of_nat (length (bc_list_l (written_doc_l ex03l_sd))) <= 1000000)%Z) by (vm_compute; discriminate).
+  assert (H3 : (Z.of_nat (length (lit_list_l (written_doc_l ex03l_sd))) <= 1000000)%Z) by (vm_compute; discriminate).
+  destruct (C03_reread_list_fixed_point_partial ex03l_sd [] 41%Z [] 46%Z H0 ltac:(lia) ltac:(lia) H1 H2 H3) as (A & B & C & D & E & F).
+  assert (Hc1 : count_after_l 41 (written_doc_l ex03l_sd) = 46%Z) by (vm_compute; reflexivity). rewrite Hc1 in A.
+  assert (Hc2 : count_after_l 46 (cwv_l (written_doc_l ex03l_sd)) = 51%Z) by (vm_compute; reflexivity). rewrite Hc2 in C.
+  refine (conj H0 (conj A (conj B (conj C (conj D (conj E (conj F _))))))). vm_compute. discriminate.
+Qed.
+
+Example C03_reread_list_closed_nonvacuous :
+  let c := written_doc_l ex03l_sd in
+  cdoc_ok_l c = true /\ csort_l c = c /\ has_header_l c = true /\
+  (Z.of_nat (length (lc_list_l c)) <= 1000000)%Z /\ (Z.of_nat (length (bc_list_l c)) <= 1000000)%Z /\
+  rereadable_l (number_l 41 c) = true /\ written_doc_l (number_l 41 c) = cwv_l c.
+Proof.
+  intros c.
+  assert (H0 : cdoc_ok_l c = true) by (vm_compute; reflexivity).
+  assert (H1 : csort_l c = c) by (vm_compute; reflexivity).
+  assert (H2 : has_header_l c = true) by (vm_compute; reflexivity).
+  assert (H3 : (Z.of_nat (length (lc_list_l c)) <= 1000000)%Z) by (vm_compute; discriminate).
+  assert (H4 : (Z.of_nat (length (bc_list_l c)) <= 1000000)%Z) by (vm_compute; discriminate).
+  exact (conj H0 (conj H1 (conj H2 (conj H3 (conj H4 (C03_reread_list_closed c 41%Z H0 H1 H2 ltac:(lia) H3 H4)))))).
+Qed.
